@@ -108,11 +108,10 @@ def find_global_peaks_rough(
     # Find the maximum values and their indices along the height and width axes.
     max_values, max_indices_y = torch.max(cms, dim=2, keepdim=True)
     max_values, max_indices_x = torch.max(max_values, dim=3, keepdim=True)
+    # Row of the maximum within the selected column, so that (x, y) index one cell
+    # even when the maximum is attained in several rows and columns.
+    amax_indices_y = torch.gather(max_indices_y, 3, max_indices_x).squeeze(dim=(2, 3))
     max_indices_x = max_indices_x.squeeze(dim=(2, 3))  # (samples, channels)
-    # Find the maximum values and their indices along the height and width axes.
-    amax_values, amax_indices_x = torch.max(cms, dim=3, keepdim=True)
-    amax_values, amax_indices_y = torch.max(amax_values, dim=2, keepdim=True)
-    amax_indices_y = amax_indices_y.squeeze(dim=(2, 3))
     peak_points = torch.cat(
         [max_indices_x.unsqueeze(-1), amax_indices_y.unsqueeze(-1)], dim=-1
     ).to(torch.float32)
